@@ -27,6 +27,9 @@ CHECKS = {
  "C08": dict(cat="exploration", tech="bounded-exhaustive enumeration of templates x all format assignments plus Hypothesis-generated assignments (diagonal, broadcast, renamed, reserved names) against a totality predicate; CLI through CliRunner; gcc -fsyntax-only and llvmlite verify on accepted code",
    text="Every enumerated/generated (assignment, formats, kinds, language) request must return code or one of the documented typed refusals within a 60 s alarm, through the library, TensorMethod and the CLI; accepted code must be accepted by its tool chain. Per-template exhaustive over formats where the product is <= the tier limit (listed in evidence), otherwise a deterministic sample.",
    note="Trusted: gcc 12 and llvmlite as acceptance oracles; typer's CliRunner as a faithful CLI invocation.", ref="DESIGN.md §3 C08"),
+ "C09": dict(cat="exploration", tech="bounded-exhaustive enumeration (all formats of order 0-3 x small dimensions x every coordinate subset x constructors) plus Hypothesis-generated constructions (order<=4, duplicates, shuffles, zero values, out-of-range variants) against an in-memory dict model; raw-array validity; pickle and to_format round-trips",
+   text="Every enumerated/generated construction is compared with a dict model through to_dok/items, through the raw cffi arrays (canonical structure), through pickling and through to_format; out-of-range coordinates must raise. The sub-domain named in evidence is enumerated completely; the rest is sampled.",
+   note="Trusted: the harness's raw-array decoder and validity predicate.", ref="DESIGN.md §3 C09"),
 }
 def main():
     checks = []
